@@ -824,3 +824,38 @@ Proof.
     eexists. rewrite <- !app_assoc. reflexivity.
   - intros n stm idx H. unfold xs_E in H. apply xs_emit_in in H. exact H.
 Qed.
+
+(* =================================================================================================
+   7. No object is listed twice *)
+
+Lemma xs_existsb_false : forall id vis, existsb (N.eqb id) vis = false -> ~ In id vis.
+Proof.
+  intros id vis H Hin. assert (E : existsb (N.eqb id) vis = true) by (apply existsb_exists; exists id; split; [exact Hin | apply N.eqb_refl]).
+  congruence.
+Qed.
+
+Lemma xs_walk_nodup : forall fuel objs st vis res,
+  NoDup res -> (forall x, In x res -> In x vis) -> NoDup (xs_walk fuel objs st vis res).
+Proof.
+  induction fuel as [|f IH]; intros objs st vis res Hnd Hsub.
+  - cbn [xs_walk]. rewrite rev'_rev. apply NoDup_rev. exact Hnd.
+  - cbn [xs_walk]. destruct st as [|o st]; [rewrite rev'_rev; apply NoDup_rev; exact Hnd|].
+    destruct o; try (apply IH; assumption).
+    destruct (existsb (N.eqb id) vis) eqn:E; [apply IH; assumption|].
+    apply xs_existsb_false in E. apply IH.
+    + destruct (xs_excluded objs (xs_lookup objs id)); [exact Hnd|]. constructor; [| exact Hnd]. intros Hin. apply E. apply Hsub. exact Hin.
+    + intros x Hx. destruct (xs_excluded objs (xs_lookup objs id)); [right; apply Hsub; exact Hx|].
+      destruct Hx as [<- | Hx]; [left; reflexivity | right; apply Hsub; exact Hx].
+Qed.
+
+(* The eligibility walk lists every object at most once, hence every object is assigned to exactly one object stream:
+   no object is written twice. *)
+Lemma xs_member_of_one_stream_lemma : forall d,
+  NoDup (xs_eligible d)
+  /\ (forall m j1 j2, In (m, j1) (xs_asg (xs_make_plan d)) -> In (m, j2) (xs_asg (xs_make_plan d)) -> j1 = j2).
+Proof.
+  intros d. assert (H : NoDup (xs_eligible d)).
+  { unfold xs_eligible. apply xs_walk_nodup; [constructor | intros x []]. }
+  split; [exact H|]. intros m j1 j2 H1 H2. unfold xs_make_plan in *. cbn [xs_asg] in *.
+  eapply nodup_key_unique; [| exact H1 | exact H2]. rewrite xs_assign_fst. exact H.
+Qed.
